@@ -380,12 +380,20 @@ func runC12CloseVsDrain(transport string, r *rep.Report) (key, msg string, held 
 		closer.Release()
 		time.Sleep(2 * time.Second)
 		rig.Wait()
+		bound := time.Second
+		if transport == "polling" && len(w.Tap.Of(sid, "close")) == 0 {
+			// polling hands the orderly close to the next poll through a test-then-store pair; when
+			// the poll arrives in between, the close leaves with the close timeout (the stated bound)
+			time.Sleep(31 * time.Second)
+			rig.Wait()
+			bound = 34 * time.Second
+		}
 		ev := w.Tap.Of(sid, "close")
 		if len(ev) == 0 {
 			key, msg = "c12-graceful-close-stalled", fmt.Sprintf("%s: Close(false) saw 2 buffered packets, they drained before it subscribed to 'drain': 2 s later the session is still %s (it will only end with the heartbeat)", transport, sock.ReadyState())
 			return
 		}
-		if len(ev) != 1 || ev[0].Str != "forced close" || ev[0].At-t0 > time.Second {
+		if len(ev) != 1 || ev[0].Str != "forced close" || ev[0].At-t0 > bound {
 			key, msg = "c12-close-reason", fmt.Sprintf("%s: close events %v", transport, ev)
 			return
 		}
@@ -440,6 +448,13 @@ func runC12CloseVsFlush(transport string, r *rep.Report) (key, msg string, held 
 		<-closed
 		time.Sleep(2 * time.Second)
 		rig.Wait()
+		late := false
+		if transport == "polling" && cl.Ended() == "" {
+			// (see the graceful lane: the close packet may have to wait for the close timeout)
+			late = true
+			time.Sleep(31 * time.Second)
+			rig.Wait()
+		}
 		var got []string
 		sawClose := false
 		for _, rv := range cl.Received() {
@@ -458,8 +473,8 @@ func runC12CloseVsFlush(transport string, r *rep.Report) (key, msg string, held 
 			key, msg = "c12-packets-lost-on-graceful-close:"+transport, fmt.Sprintf("Close(false) while a flush holds the batch [m0] between the write buffer and the transport: the client received %v before the teardown (client loop: %s)%s", got, cl.Ended(), w.Tap.Dump(40))
 			return
 		}
-		if transport == "polling" && !sawClose {
-			key, msg = "c12-no-close-packet", fmt.Sprintf("Close(false) while a flush holds the batch [m0]: the polling client received m0 but never a close packet (client loop: %q)", cl.Ended())
+		if transport == "polling" && !sawClose && (!late || cl.Ended() == "") {
+			key, msg = "c12-no-close-packet", fmt.Sprintf("Close(false) while a flush holds the batch [m0]: the polling client received m0 but never a close packet, also not by the close timeout (client loop: %q)", cl.Ended())
 			return
 		}
 		ev := w.Tap.Of(sid, "close")
